@@ -171,6 +171,16 @@ func c04Values(types []*gen.Type) []c04Val {
 				out = append(out, c04Val{kind: "expr-concat", t: t, src: lit + "+" + constLit(t, 1)})
 				out = append(out, c04Val{kind: "expr-concat", t: t, src: lit + "+[]"})
 				out = append(out, c04Val{kind: "expr-concat", t: t, src: "[]+" + lit})
+				if t.Sub.IsComposite() {
+					// a nested untyped empty literal on either side is filled in by the other operand
+					in := "[[]]"
+					if t.Sub.K == gen.Map {
+						in = "[{}]"
+					}
+					out = append(out, c04Val{kind: "expr-concat", t: t, src: in + "+" + lit})
+					out = append(out, c04Val{kind: "expr-concat", t: t, src: lit + "+" + in})
+					out = append(out, c04Val{kind: "expr-concat", t: t, src: in + "+" + lit + "+" + in})
+				}
 				out = append(out, c04Val{kind: "expr-slice", t: t, src: lit + "[:]"})
 				out = append(out, c04Val{kind: "expr-repeat", t: t, src: lit + "*2"})
 			}
